@@ -39,7 +39,7 @@ int main ()
     printf ("int limits_has_denorm %d\n", (int) (L::has_denorm == std::denorm_present));
     printf ("int limits_round_to_nearest %d\n", (int) (L::round_style == std::round_to_nearest));
     // members outside the property's list of extremes, dumped so that they are at least stated (Props/C03.lean
-    // other_members, Props/C03Bounded.lean)
+    // other_members; is_bounded & co. are only reported, extra.observed_outside_property)
     printf ("int limits_is_specialized %d\n", (int) L::is_specialized);
     printf ("int limits_is_integer %d\n", (int) L::is_integer);
     printf ("int limits_is_exact %d\n", (int) L::is_exact);
